@@ -571,6 +571,26 @@ def register(lib):
         raise Unsupported('unpack size')
     lib.decode_word = decode_word
 
+    def int_from_bytes(I, b, byteorder='big', signed=False):
+        b = untag(b)
+        if isinstance(b, bytes):
+            return int.from_bytes(b, byteorder, signed=signed)
+        n = b.length
+        if is_sym(n) or n not in (2, 4):
+            raise Unsupported('int.from_bytes length')
+        fmt = ('<' if byteorder == 'little' else '>') + {2: 'H', 4: 'I'}[n]
+        if signed:
+            fmt = fmt.lower()
+        return decode_word(b, fmt)
+    E['int.from_bytes'] = int_from_bytes
+
+    def int_to_bytes(I, v, length=1, byteorder='big', signed=False):
+        fmt = ('<' if byteorder == 'little' else '>') + {1: 'B', 2: 'H', 4: 'I'}[length]
+        if signed:
+            fmt = fmt.lower()
+        return BM.Packed(fmt, v)
+    M[('int', 'to_bytes')] = int_to_bytes
+
     # ------------------------------------------------------------------ misc stdlib
     E['time.time'] = lambda I: cur().sym_float('time')
 
